@@ -269,6 +269,11 @@ static void fill(void *p, size_t n, int mode)
 void w_reinit(int fillmode)
 {
         W.fillmode = fillmode;
+        if (fillmode == 3 && W.at != NULL) {          /* 3: cat_init again on the SAME, used object and dirty buffers (an application re-initialising its parser) */
+                PHASE = 0; scribble.s = 88172645463325252ULL; MX_DEPTH = 0;
+                cat_init(W.at, W.desc, &IO, W.use_mutex ? &MUTEX : NULL);
+                return;
+        }
         W.at = xalloc(sizeof *W.at);
 #ifdef VERIF_MSAN
         fillmode = 2;
